@@ -51,6 +51,7 @@ COMPOSED = [
     {"k": "rbf", "active_dims": [2, 1], "ard": True, "needs_d": 3},
     {"k": "scale", "base": {"k": "linear", "active_dims": [2, 0, 1], "ard": True}, "needs_d": 4},
     {"k": "prod", "parts": [{"k": "matern", "nu": 1.5, "active_dims": [3, 1], "ard": True}, {"k": "periodic", "active_dims": [0, 2], "ard": True}], "needs_d": 4},
+    {"k": "shared_instance_sum"}, {"k": "shared_instance_prod"},
     {"k": "additive_structure", "base": {"k": "rbf"}},
     {"k": "additive_structure", "base": {"k": "scale", "base": {"k": "matern", "nu": 1.5}}},
     {"k": "product_structure", "base": {"k": "rbf"}},
@@ -135,6 +136,10 @@ def _build(spec, d, pb):
         return K.ConstantKernel(batch_shape=bs)
     if k == "hamming":
         return K.HammingIMQKernel(vocab_size=4, batch_shape=bs)
+    if k in ("shared_instance_sum", "shared_instance_prod"):
+        # one kernel OBJECT used in two places of a composition
+        shared = K.MaternKernel(nu=2.5, batch_shape=bs)
+        return (K.ScaleKernel(shared, batch_shape=bs) + shared) if k.endswith("sum") else (K.ScaleKernel(shared, batch_shape=bs) * shared)
     if k == "arc":
         kw = {"ard_num_dims": d} if spec.get("ard") else {}
         return K.ArcKernel(util.build_kernel(spec["base"], 2 * d, pb), batch_shape=bs, **kw)
@@ -285,6 +290,7 @@ def _run_case(case, ctx):
         tol = (max(1e-8, 50 * case["offset"] * 2.3e-16 * _sens(kern)), 1e-8)
         if _has(spec, "matern", nu=0.5) or _has(spec, "pp"):
             tol = (max(tol[0], 1e-6), 1e-7)
+    _x1_before, _x2_before = x1.detach().clone(), x2.detach().clone()
     cls = spec["k"] + ":" + path + (":default_f32" if case.get("default_f32") else "")
     if case.get("f32"):
         tol = (2e-5, 2e-4)
@@ -344,6 +350,7 @@ def _run_case(case, ctx):
     except NotImplementedError as e:
         ctx.reject(f"NotImplementedError:{spec['k']}")
         return
+    ctx.expect("inputs_not_mutated", bool(torch.equal(x1.detach(), _x1_before)) and bool(torch.equal(x2.detach(), _x2_before)), f"{type(kern).__name__} changed its input tensors in place", kclass=type(kern).__name__)
     nontriv = spec["k"] == "constant" or float(ref.max() - ref.min()) > 1e-6
     ctx.cell({k: v for k, v in case.items() if k != "seed"}, nontrivial=nontriv)
 
